@@ -280,6 +280,7 @@ func runC07(r *Run) {
 			ok   bool
 		}
 		results := make([]res, sc.callers)
+		meter := startStallMeter()
 		var wg sync.WaitGroup
 		ctxs := make([]context.CancelFunc, sc.callers)
 		t0 := time.Now()
@@ -320,6 +321,11 @@ func runC07(r *Run) {
 		case <-doneCh:
 		case <-time.After(bound + 2*time.Second):
 			hung = true
+		}
+		stall := meter.Stop()
+		if stall > 50*time.Millisecond {
+			bound += 4 * stall // the machine held the harness up: widen the bound by what was lost
+			r.Count("timing-bound-widened:machine-stalled")
 		}
 		desc := map[string]any{"transport": sc.kind, "fault": sc.fault, "trigger": sc.trigger, "callers": sc.callers, "deadline_scale": scale07}
 		if hung {
